@@ -39,6 +39,15 @@ TAUT_PAIRS = [
      "[CH3:1][C:2](=[O:3])[OH:4].[CH3:5][NH2:6]>>[CH3:1][C:2](=[O:4])[NH:6][CH3:5].[OH2:3]"),
 ]
 
+# keto -> phenol aromatisation written from the 2,4- and the 2,5-dienone: all ring bonds change by 0.5 only, so the
+# verdict of the pair depends on ignore_aromaticity
+AROM_PAIRS = [
+    ("[O:1]=[C:2]1[CH:3]=[CH:4][CH2:5][CH:6]=[CH:7]1>>[OH:1][c:2]1[cH:3][cH:4][cH:5][cH:6][cH:7]1",
+     "[O:1]=[C:2]1[CH:3]=[CH:4][CH:5]=[CH:6][CH2:7]1>>[OH:1][c:2]1[cH:3][cH:4][cH:5][cH:6][cH:7]1"),
+    ("[O:1]=[C:2]1[CH:3]=[CH:4][CH:5]=[CH:6][CH2:7]1>>[OH:1][c:2]1[cH:3][cH:4][cH:5][cH:6][cH:7]1",
+     "[O:1]=[C:2]1[CH:3]=[CH:4][CH2:5][CH:6]=[CH:7]1>>[OH:1][c:2]1[cH:3][cH:4][cH:5][cH:6][cH:7]1"),
+]
+
 CRN_SETUPS = [
     (["esterification", "ester_hydrolysis"], ["CC(=O)O", "CO", "CCO"]),
     (["aldol"], ["CC=O", "CCC=O"]),
@@ -91,11 +100,11 @@ def gen_op(rng, s) -> Dict[str, Any]:
         rows = []
         for _ in range(rng.randint(1, 10)):
             a = rng.randrange(n_rules)
-            kind = rng.choice(["same", "renum", "renum", "other", "swap", "taut", "taut"])
+            kind = rng.choice(["same", "renum", "renum", "other", "swap", "taut", "taut", "arom"])
             rows.append({"gt": a, "kind": kind, "k": rng.randrange(1 << 20), "other": rng.randrange(n_rules)})
         return {"op": "validate", "s": s(), "rows": rows, "n_jobs": rng.choice([1, 1, 2, 3, 4, 8]),
                 "method": rng.choice(["RC", "ITS"]), "as_df": rng.random() < 0.3,
-                "ignore_tautomers": rng.random() < 0.5, "ignore_aromaticity": rng.random() < 0.2}
+                "ignore_tautomers": rng.random() < 0.5, "ignore_aromaticity": rng.random() < 0.35}
     if c < 0.8:
         rows = []
         for _ in range(rng.randint(1, 12)):
@@ -239,6 +248,9 @@ def _validate(op: Dict[str, Any], sim: Sim, world, pristine) -> None:
         if row["kind"] == "taut":
             gt, m = TAUT_PAIRS[row["k"] % len(TAUT_PAIRS)]
             sim.probe("validate_tautomer_sensitive_pair")
+        elif row["kind"] == "arom":
+            gt, m = AROM_PAIRS[row["k"] % len(AROM_PAIRS)]
+            sim.probe("validate_aromaticity_sensitive_pair")
         elif row["kind"] == "same":
             m = gt
         elif row["kind"] == "renum":
